@@ -619,6 +619,46 @@ func c08bulkWorker(arg string) {
 		}
 	}
 	st.Steps, st.States = st.Execs, st.Scenarios
+	// very long durations (decades, centuries, the largest Duration): the deadline is further away than any
+	// instant the check reaches, so the entry is live throughout, is not swept, refuses a second Set and is
+	// never "expired" -- whatever the arithmetic on such a deadline does internally
+	for _, d := range []time.Duration{50 * 365 * 24 * time.Hour, 200 * 365 * 24 * time.Hour, 250 * 365 * 24 * time.Hour, math.MaxInt64 / 2, math.MaxInt64 - 1, math.MaxInt64} {
+		for _, viaDefault := range []bool{false, true} {
+			clock = 0
+			st.Scenarios++
+			wit := fmt.Sprintf("entry stored with duration %v (as the cache default: %t), observed now and 8 units later", d, viaDefault)
+			var ca *cache.Cache[string, int]
+			var err error
+			if viaDefault {
+				ca = cache.New[string, int](d, 0)
+				err = ca.Set("k", 1, cache.DefaultExpiration)
+			} else {
+				ca = cache.New[string, int](cache.NoExpiration, 0)
+				err = ca.Set("k", 1, d)
+			}
+			if err != nil {
+				fail("Cache.Set/very-long-duration/error", wit, "Set returned %v", err)
+				continue
+			}
+			for round := 0; round < 2; round++ {
+				if it, err := ca.Get("k"); err != nil || it.Val() != 1 {
+					fail("Cache.Get/very-long-duration/live-entry-not-returned", wit, "Get = (%v, %v) at time %d", it, err, clock/int64(unit))
+				}
+				if ca.IsExpired("k") {
+					fail("Cache.IsExpired/very-long-duration/true-for-live-entry", wit, "IsExpired = true at time %d", clock/int64(unit))
+				}
+				if err := ca.Set("k", 2, 3*unit); err == nil {
+					fail("Cache.Set/very-long-duration/live-key-overwritten", wit, "a second Set was granted at time %d", clock/int64(unit))
+				}
+				ca.DeleteExpired()
+				if c := ca.Count(); c != 1 {
+					fail("Cache.DeleteExpired/very-long-duration/removes-live-entry", wit, "Count = %d after DeleteExpired at time %d", c, clock/int64(unit))
+				}
+				clock += int64(8 * unit)
+			}
+			st.Execs += 10
+		}
+	}
 	st.Samples = []string{fmt.Sprintf("bulk sweeps: %d configurations, up to %d short-lived entries", st.Scenarios, N)}
 	out.stats(st)
 }
